@@ -509,6 +509,7 @@ class E7Heap(ScriptEngine):
             use_helpers=rng.random() < 0.4,
             use_sleep=False,
             main_loop=True,
+            steady_loop=rng.random() < 0.8,
         )
         gen = ProgGen(rng, avoid, opts)
         gen.list_bias = True
